@@ -36,5 +36,18 @@ mod verif_find_oidtext {
         for bad in ["", "1", "1.", ".1", "1..3", "1.3.", "3.1", "1.40", "2.40", "1.-3", "1.3.a", "1.3.4294967296", "1.3. 4", "a.b", "1,3"] {
             assert!(SnmpOid::try_from(bad).is_err(), "text {:?} accepted", bad);
         }
+        // first arc must be 0..2 and second 0..39 as NUMBERS: values that only look right modulo 2^8 / 2^16 / 2^32 are refused
+        for first in [3u64, 4, 40, 255, 256, 257, 258, 259, 65536, 65537, 65538, 4294967295] {
+            for second in [0u64, 3, 39] {
+                let t = format!("{}.{}.6.1", first, second);
+                assert!(SnmpOid::try_from(t.as_str()).is_err(), "text {:?} accepted", t);
+            }
+        }
+        for second in [40u64, 41, 255, 256, 257, 259, 295, 296, 65536, 65539, 65575, 4294967295] {
+            for first in [0u64, 1, 2] {
+                let t = format!("{}.{}.6.1", first, second);
+                assert!(SnmpOid::try_from(t.as_str()).is_err(), "text {:?} accepted", t);
+            }
+        }
     }
 }
